@@ -21,7 +21,7 @@ func valPower(s env.BridgeState, v int64) (int64, bool) {
 // MonProphecy — C05: threshold, gating, finality.
 func MonProphecy(rep *report.Report, h BHistory) {
 	for _, s := range h.Steps {
-		if s.Kind != 1 {
+		if s.Kind != 1 && s.Kind != 6 {
 			continue
 		}
 		pid, val, cid := s.A[0], s.A[1], s.A[2]
@@ -87,7 +87,7 @@ func MonProphecy(rep *report.Report, h BHistory) {
 func MonCredit(rep *report.Report, h BHistory) {
 	credited := map[int64]bool{}
 	for _, s := range h.Steps {
-		if s.Kind != 1 {
+		if s.Kind != 1 && s.Kind != 6 {
 			continue
 		}
 		pid := s.A[0]
